@@ -20,7 +20,7 @@ def run(ck):
     ck.cov["rule"] = ("case = (real archive, mutation set) loaded by simulation.LoadCheckpoint into a rebuilt simulation; mutation sets are all singles (quick) / singles and pairs "
                       "(thorough) enumerated by TLC; non-trivial = at least one mutation applied and applicable.")
     ck.assumptions += ["rebuilt simulation = same construction code; configuration mutations change exactly one parameter"]
-    out = core.harness(ck.binary("tick"), "ckpt_mut", dict(seed=ck.seed, systems=3 if q else 12, cases=cases, flips=150 if q else 2000), timeout=3000)
+    out = core.harness(ck.binary("tick"), "ckpt_mut", dict(seed=ck.seed, systems=3 if q else 6, cases=cases, flips=150 if q else 1200), timeout=3000)
     expect = {core.canon(sorted(c["mutations"])): c["expect"] for c in cases}
     n_app = 0
     for res in out["results"]:
